@@ -37,7 +37,8 @@ ASSUMPTIONS = [
     "Bloch phases and PML are out of scope of the property text",
     "cell widths are np.diff of the edge coordinates stored in the placed config (float32 in the f32 lane)",
     "tolerance 1e-12 (f64 lane) / 5e-6 (f32 lane) relative to the largest field magnitude",
-    "records of steps at which a detector is off must stay zero (state untouched)",
+    "records of steps at which a detector is off must stay zero (state untouched); a detector that is never on "
+    "(always-off switch) keeps its zero-row state and must not disturb the update of the others",
 ]
 
 CONTACT = ("L", "I", "H", "F")
@@ -102,7 +103,8 @@ def case_strategy(draw, ctx):
             "name": f"d{i}", "lo": [e[0] for e in ext], "hi": [e[1] for e in ext], "contact": "".join(cls),
             "exact": True if i < 2 else draw(st.sampled_from([True, True, True, False])),
             "components": comps,
-            "on": True if i < 2 else draw(st.integers(0, 7)) != 0,
+            # True = always on, False = on at every step but the probed one, "never" = always-off switch
+            "on": True if i < 2 else draw(st.sampled_from([True] * 9 + [False, False, "never"])),
         })
     imp = []
     for _ in range(draw(st.integers(0, 3))):
@@ -139,9 +141,12 @@ def build_scene(case, lane):
     def extra(cfg, vol):
         objs, cons = [], []
         for d in case["dets"]:
-            on = None if d["on"] else [s for s in range(steps) if s != case["t"]]
+            if d["on"] == "never":
+                sw = fdtdx.OnOffSwitch(is_always_off=True)
+            else:
+                sw = od.on_switch(None if d["on"] else [s for s in range(steps) if s != case["t"]], steps)
             det = fdtdx.FieldDetector(name=d["name"], dtype=fdt, exact_interpolation=d["exact"], plot=False,
-                                      components=tuple(d["components"]), switch=od.on_switch(on, steps))
+                                      components=tuple(d["components"]), switch=sw)
             lo, hi = od.full_coords(spec, d["lo"], d["hi"])
             objs.append(det)
             cons.append(put(det, lo, hi))
@@ -185,12 +190,15 @@ def body(ctx, case):
     for d in case["dets"]:
         lo, hi = d["lo"], d["hi"]
         rec = states[d["name"]]["fields"]
-        nsteps_on = spec["steps"] if d["on"] else spec["steps"] - 1
+        nsteps_on = 0 if d["on"] == "never" else spec["steps"] if d["on"] else spec["steps"] - 1
         ctx.check(rec.shape == (nsteps_on, len(d["components"]), *[hi[a] - lo[a] for a in range(3)]),
                   f"{d['name']}: state shape {rec.shape}", observed=list(rec.shape))
         interior = all(lo[a] >= 1 and hi[a] <= n[a] - 1 for a in range(3))
         path = "raw" if not d["exact"] else ("interior" if interior else "fallback")
         ctx.classify("path=" + path, "contact=" + d["contact"])
+        if d["on"] == "never":
+            ctx.classify("never_on")  # zero-row state: nothing to record, the update must simply leave it alone
+            continue
         if not d["on"]:
             ctx.classify("off_at_t")
             ctx.check(not np.any(rec), f"{d['name']}: detector is off at step {t} but its state changed",
